@@ -601,6 +601,21 @@ pub(super) fn extract_optimizable_while_loop(
       return Err((loop_variables, stmts, original_break_collector));
     }
   };
+  // The guard comparison `cc = i op g` (stmts[0]) is dropped and re-created under a fresh name when
+  // the loop is expanded again, so nothing else may read `cc`.
+  if let Some(guard_comparison) = stmts.first().and_then(|s| s.as_binary()) {
+    let mut used = HashSet::new();
+    dead_code_elimination::collect_use_from_stmts(&stmts[2..], &mut used);
+    for v in &loop_variables {
+      dead_code_elimination::collect_use_from_expression(&v.loop_value, &mut used);
+    }
+    if let Some((_, _, e)) = &break_collector {
+      dead_code_elimination::collect_use_from_expression(e, &mut used);
+    }
+    if used.contains(&guard_comparison.name) {
+      return Err((loop_variables, stmts, original_break_collector));
+    }
+  }
   // Phase 2: Extract basic induction variables.
   let ExtractedBasicInductionVariables {
     loop_variables_that_are_not_basic_induction_variables,
